@@ -1,6 +1,7 @@
 package extra25519
 
 import (
+	"filippo.io/edwards25519"
 	rt "github.com/aperturerobotics/bifrost/zz_verifrt"
 )
 
@@ -55,6 +56,12 @@ func VerifC14Convert() {
 		rt.Assert("converted key has 32 bytes", len(out) == 32)
 	} else {
 		rt.Reach("invalid-encoding")
+	}
+	// reference: the same point decoder decides what a curve point is
+	pt, perr := (&edwards25519.Point{}).SetBytes(ge)
+	rt.Assert("conversion succeeds exactly for curve points that are not of small order", ok == (perr == nil && !c14InSet(ge)))
+	if ok && perr == nil {
+		rt.Assert("the converted key is the point's Montgomery u-coordinate", rt.BytesEq(out, pt.BytesMontgomery()))
 	}
 	rt.Reach("end")
 }
